@@ -363,6 +363,18 @@ func init() {
 		return e.fresh(st, "close.err", errT)
 	}
 	models["(io.Closer).Close"] = models["(net.Conn).Close"]
+	// read deadline of a connection: ghost G_rdeadline[c] (ns; 0 = none armed)
+	models["(net.Conn).SetReadDeadline"] = func(e *Exec, fr *Frame, st *State, args []Val, cc *ssa.CallCommon, pos token.Pos) Val {
+		m := e.heapMap("G_rdeadline", "(Array Int Int)")
+		e.hset(st, m, sto(e.hget(st, m), "(i_val "+args[0].T+")", args[1].T))
+		return e.fresh(st, "setdl.err", errT)
+	}
+	models["(net.Conn).SetDeadline"] = models["(net.Conn).SetReadDeadline"]
+	for _, k := range []string{"(net.Conn).SetReadDeadline", "(net.Conn).SetDeadline"} {
+		modelEffects[k] = func(e *Exec, cc *ssa.CallCommon) []string {
+			return []string{e.heapMap("G_rdeadline", "(Array Int Int)")}
+		}
+	}
 	connEff := func(e *Exec, cc *ssa.CallCommon) []string {
 		return []string{e.heapMap("G_inpos", "(Array Int Int)"), e.heapMap("G_outlen", "(Array Int Int)"), e.heapMap("G_outwrites", "(Array Int Int)"),
 			e.heapMap("G_out", "(Array Int (Array Int Int))"), e.heapMap("G_closedconn", "(Array Int Bool)"), e.elemHeap(types.Typ[types.Byte])}
